@@ -524,6 +524,48 @@ void h_c02_slice(void)
     VERIF_COVER(in_v0.as.i64 > (int64_t)4294967296);
 }
 
+/* ---- C14.step.ARR_SLICE.bounded: the census of (array_slice a start length) for an array whose slots hold ints or DISTINCT
+ * strings, whatever the array's elem_type tag says: every string copied into the result gains exactly one count (the new
+ * reference), strings outside the slice keep theirs, the source array loses the reference popped from the stack.
+ * B(source capacity <= VERIF_ARR_CAP; string or int elements). ---- */
+void h_c14_slice(void)
+{
+    build_state();
+    VmState *vm = g_vm;
+    __CPROVER_assume(in_stack_size >= 3 && in_v2.tag == TAG_ARRAY && in_v1.tag == TAG_INT && in_v0.tag == TAG_INT);
+    VmArray *src = in_v2.as.array;
+    src->elem_type = nondet_u8();
+    uint32_t j = nondet_u32();                       /* source index of interest */
+    __CPROVER_assume(j < VERIF_ARR_CAP);
+    VmString *sj = NULL; uint32_t rcj = 0;
+    for (uint32_t i = 0; i < VERIF_ARR_CAP; i++)
+        if (i < src->capacity) {
+            NanoValue e = {0};
+            if (nondet_bool()) { e.tag = TAG_STRING; e.as.string = mk_string(); if (i == j) { sj = e.as.string; rcj = sj->header.ref_count; } }
+            else { e.tag = TAG_INT; e.as.i64 = nondet_i64(); }
+            src->elements[i] = e;
+        }
+    __CPROVER_assume(src->header.ref_count >= 2);
+    uint32_t rca = src->header.ref_count;
+    int64_t len = src->length, start = in_v1.as.i64, count = in_v0.as.i64;
+    if (start < 0) start = 0;
+    if (count < 0) count = 0;
+    if (start > len) start = len;
+    if (count > len - start) count = len - start;
+    _Bool in_slice = (int64_t)j >= start && (int64_t)j < start + count;
+    VmTrap t = vm_core_execute(vm);
+    __CPROVER_assert(t.type == TRAP_HALT || t.type == TRAP_NONE, "C14.slice does not trap");
+    NanoValue r = vm->stack[vm->stack_size - 1];
+    __CPROVER_assert(r.tag == TAG_ARRAY && r.as.array != NULL && r.as.array->header.ref_count == 1, "C14.slice result is a new array with count 1");
+    __CPROVER_assert(src->header.ref_count == rca - 1, "C14.slice the source array loses exactly the popped reference");
+    if (sj != NULL && j < src->length) {
+        __CPROVER_assert(!in_slice || r.as.array->elements[j - start].as.string == sj, "C14.slice the string at source index j is element j - start of the result");
+        __CPROVER_assert(sj->header.ref_count == rcj + (in_slice ? 1u : 0u), "C14.slice a copied string gains exactly one count, any other keeps its count");
+    }
+    VERIF_COVER(sj != NULL && in_slice && j >= 1);
+    VERIF_COVER(sj != NULL && !in_slice && j < src->length);
+}
+
 /* ---- C02.vm.<OP>f: float operators = the same C double operation on (a, b), results compared as bit patterns ---- */
 static inline uint64_t dbits(double d) { uint64_t u; memcpy(&u, &d, 8); return u; }
 void h_c02f(void)
